@@ -69,6 +69,7 @@ class StopWalk(Client):
         self.f = f
         self.poll_funcs = poll_funcs
         self.undet_when_stopped = undet_when_stopped
+        self.enum_names = {}
         self.bad = []
         self.sites = set()
         self.stop_exits = 0
@@ -144,6 +145,16 @@ class StopWalk(Client):
         if v is not None:
             if definitive(v, rt):
                 self.bad.append((node.get('ln'), 'returns the verdict %s on a path that has observed the stop request' % v))
+            return
+        if isinstance(e, dict) and e.get('k') == 'ref' and e.get('d') == 'enum':
+            # an enumeration result: fine only if the enumeration has an undetermined value and this is it
+            en = e.get('en', '')
+            names = self.enum_names.get(en, [])
+            undet = [x for x in names if x.lower() in ('undef', 'unknown', 'undetermined', 'l_undef')]
+            val = e['n'].split('::')[-1]
+            if val not in undet:
+                self.bad.append((node.get('ln'), 'returns %s on a path that has observed the stop request; %s %s, so the caller takes it for a result that was actually computed'
+                                 % (e['n'].split('::', 1)[-1], en.split('::')[-1], ('has the undetermined value %s' % undet[0]) if undet else 'has no undetermined value')))
             return
         p = path_of(e)
         if p is not None:
@@ -240,6 +251,7 @@ def run(src, tier, seed):
     res.extra['undetermined_when_entered_stopped'] = sorted(fx.F[i]['name'] for i in undet)
     for f in sorted(pollers, key=lambda f: f['name']):
         c = StopWalk(f, poll_ids, undet)
+        c.enum_names = {n: [x['n'] for x in e['e']] for n, e in fx.E.items()}
         eng = Engine(f, c)
         eng.run([(False, frozenset())])
         if eng.broken:
